@@ -234,7 +234,7 @@ Qed.
 (** ** the model on R *)
 Section OnR.
 Variables Phi Phiinv : R -> R.
-Hypothesis GF : GaussFacts Phi Phiinv.
+Hypothesis GF : GaussCDF Phi Phiinv.
 Local Hint Extern 0 (Num R) => exact (RN Phi Phiinv) : typeclass_instances.
 
 Implicit Types (beta : R) (t : list (rating R)) (teams : list (list (rating R))) (a b : R * R).
@@ -298,10 +298,10 @@ Lemma R_draw_margin beta teams : draw_margin beta teams = margin beta (nplayers 
 Proof. unfold draw_margin, margin. cbn. now rewrite <- INR_IZR_INZ. Qed.
 
 Lemma Phi_0 : Phi 0 = / 2.
-Proof. pose proof (gf_sym _ _ GF 0) as H. rewrite Ropp_0 in H. lra. Qed.
+Proof. pose proof (gc_sym _ _ GF 0) as H. rewrite Ropp_0 in H. lra. Qed.
 
 Lemma Phi_le x y : x <= y -> Phi x <= Phi y.
-Proof. intros [H| ->]; [left; now apply (gf_mono _ _ GF)|right; reflexivity]. Qed.
+Proof. intros [H| ->]; [left; now apply (gc_mono _ _ GF)|right; reflexivity]. Qed.
 
 Lemma pN_range (N : nat) : (2 <= N)%nat ->
   / 2 < (1 + 1 / INR N) / 2 <= 3 / 4 /\ (1 + 1 / INR N) / 2 = / 2 + / (2 * INR N).
@@ -317,7 +317,7 @@ Lemma zN_facts (N : nat) : (2 <= N)%nat ->
   0 < z /\ Phi z = / 2 + / (2 * INR N).
 Proof.
   intros HN z. destruct (pN_range N HN) as [[Hlo Hhi] Heq].
-  assert (Hz : Phi z = (1 + 1 / INR N) / 2) by (apply (gf_inv _ _ GF); lra).
+  assert (Hz : Phi z = (1 + 1 / INR N) / 2) by (apply (gc_inv _ _ GF); lra).
   split; [|now rewrite Hz].
   destruct (Rlt_le_dec 0 z) as [Hpos|Hneg]; [assumption|].
   pose proof (Phi_le z 0 Hneg) as Hle. rewrite Phi_0 in Hle. lra.
@@ -350,16 +350,16 @@ Qed.
 Lemma W_nonneg x h : 0 <= h -> 0 <= W x h.
 Proof. intros Hh. unfold W. assert (Phi (x - h) <= Phi (x + h)) by (apply Phi_le; lra). lra. Qed.
 Lemma W_lt_1 x h : W x h < 1.
-Proof. unfold W. pose proof (gf_range _ _ GF (x + h)). pose proof (gf_range _ _ GF (x - h)). lra. Qed.
+Proof. unfold W. pose proof (gc_range _ _ GF (x + h)). pose proof (gc_range _ _ GF (x - h)). lra. Qed.
 Lemma W_even x h : W (- x) h = W x h.
 Proof.
   unfold W. replace (- x + h) with (- (x - h)) by ring. replace (- x - h) with (- (x + h)) by ring.
-  rewrite !(gf_sym _ _ GF). lra.
+  rewrite !(gc_sym _ _ GF). lra.
 Qed.
 Lemma W_window x y h : 0 <= h -> Rabs x <= Rabs y -> W y h <= W x h.
-Proof. intros Hh Hxy. unfold W. now apply (gf_window _ _ GF). Qed.
+Proof. intros Hh Hxy. unfold W. now apply (gc_window _ _ GF). Qed.
 Lemma W_0 h : W 0 h = 2 * Phi h - 1.
-Proof. unfold W. rewrite Rplus_0_l, Rminus_0_l, (gf_sym _ _ GF). lra. Qed.
+Proof. unfold W. rewrite Rplus_0_l, Rminus_0_l, (gc_sym _ _ GF). lra. Qed.
 
 (** the two orders of a pair, added up *)
 Lemma draw_pair m s d :
@@ -371,7 +371,7 @@ Proof.
   replace ((d - m) / s) with (d / s - m / s) by (unfold Rdiv; ring).
   replace ((m - - d) / s) with (d / s + m / s) by (unfold Rdiv; ring).
   replace ((- d - m) / s) with (- (d / s + m / s)) by (unfold Rdiv; ring).
-  rewrite !(gf_sym _ _ GF). lra.
+  rewrite !(gc_sym _ _ GF). lra.
 Qed.
 Lemma rank_pair m s d :
   Phi ((d - m) / s) + Phi ((- d - m) / s) = 1 - W (d / s) (m / s).
@@ -379,7 +379,7 @@ Proof.
   unfold W.
   replace ((d - m) / s) with (d / s - m / s) by (unfold Rdiv; ring).
   replace ((- d - m) / s) with (- (d / s + m / s)) by (unfold Rdiv; ring).
-  rewrite !(gf_sym _ _ GF). lra.
+  rewrite !(gc_sym _ _ GF). lra.
 Qed.
 
 (** *** [predict_draw] and [predict_rank_probs] in terms of [pairsum] over the aggregates *)
